@@ -31,9 +31,16 @@ def gen_case(rnd, tier: str, i: Any) -> Dict[str, Any]:
     for r in range(n_ranks):
         p = gen_sim.random_params(rnd, tier, rank=r, first_step=first_step, avoid_k1=True, n_steps=n_steps)
         if rnd.random() < 0.35:
-            p.update(autograd=True, n_threads=rnd.choice([2, 2, 3]), n_steps=max(1, n_steps))
+            p.update(autograd=True, n_threads=rnd.choice([2, 2, 3]), n_steps=max(1, n_steps), main_autograd_op=rnd.random() < 0.4)
         tr = gen_sim.gen_trace(rnd, **p)
         gen_sim.drop_events(rnd, tr, p_launch=rnd.choice([0, 0, 0.1]), p_kernel=rnd.choice([0, 0, 0.1]))
+        if rnd.random() < 0.25:
+            # device clock slightly ahead of the host clock: some activities are stamped before their launch call begins
+            launch_ts = {e["args"]["correlation"]: e["ts"] for e in tr["traceEvents"] if e.get("cat") in ("cuda_runtime", "cuda_driver")
+                         and isinstance(e.get("args"), dict) and "correlation" in e["args"]}
+            for e in tr["traceEvents"]:
+                if e.get("cat") in ("kernel", "gpu_memcpy", "gpu_memset") and e["args"].get("correlation") in launch_ts and rnd.random() < 0.15:
+                    e["ts"] = max(0, launch_ts[e["args"]["correlation"]] - rnd.choice([1, 2, 5]))
         files[f"rank{r}.json"] = tr
     # history: the call graph may be built more than once over the same loaded Trace (every call of
     # get_frequent_cuda_kernel_sequences does it)
